@@ -131,6 +131,7 @@ func toDecimal(input string) (int64, error) {
 type entryField struct {
 	Name    string
 	Pointer *int64
+	Value   []byte
 }
 
 func parseArEntry(line []byte) (*ArEntry, error) {
@@ -147,13 +148,13 @@ func parseArEntry(line []byte) (*ArEntry, error) {
 		FileMode: strings.TrimSpace(string(line[40:48])),
 	}
 
-	for target, value := range map[entryField][]byte{
-		entryField{"Timestamp", &entry.Timestamp}: line[16:28],
-		entryField{"OwnerID", &entry.OwnerID}:     line[28:34],
-		entryField{"GroupID", &entry.GroupID}:     line[34:40],
-		entryField{"Size", &entry.Size}:           line[48:58],
+	for _, target := range []entryField{
+		{"Timestamp", &entry.Timestamp, line[16:28]},
+		{"OwnerID", &entry.OwnerID, line[28:34]},
+		{"GroupID", &entry.GroupID, line[34:40]},
+		{"Size", &entry.Size, line[48:58]},
 	} {
-		input := strings.TrimSpace(string(value))
+		input := strings.TrimSpace(string(target.Value))
 		if input == "" {
 			continue
 		}
